@@ -45,6 +45,10 @@ class Fail(Exception):
         self.detail = detail
 
 
+class Missing(Exception):
+    """concrete replay went beyond the recorded inputs (= it did not fail where the symbolic path did)"""
+
+
 class Hang(BaseException):
     """wall-clock backstop fired inside one path"""
 
@@ -60,11 +64,15 @@ class _Base:
         self.covers.add(label)
 
     def fail(self, key, detail=""):
+        """detail may be a callable: it is evaluated only under concrete replay (formatting
+        symbolic values would realise them), so counterexample details come from the replay."""
+        if callable(detail):
+            detail = "" if self.symbolic else detail()
         raise Fail(key, detail)
 
     def check(self, c, key, detail=""):
         if not c:
-            raise Fail(key, detail)
+            self.fail(key, detail)
 
     def note(self, k, v):
         self.notes[k] = v
@@ -111,17 +119,22 @@ class Conc(_Base):
         self.covers = set()
         self.notes = {}
 
+    def _get(self, name):
+        if name not in self.vals:
+            raise Missing(name)
+        return self.vals[name]
+
     def int(self, name, lo, hi):
-        v = self.vals[name]
+        v = self._get(name)
         if not (lo <= v <= hi):
             raise Reject()
         return v
 
     def bool(self, name):
-        return bool(self.vals[name])
+        return bool(self._get(name))
 
     def choice(self, name, n):
-        v = self.vals[name]
+        v = self._get(name)
         if not (0 <= v < n):
             raise Reject()
         return v
@@ -148,6 +161,32 @@ def _counting_is_sat(solver, *exprs):
 
 
 _ss.solver_is_sat = _counting_is_sat
+
+
+def _model_vals(space, vals):
+    """Concrete values for the symbolic inputs of the current path, read from a solver model
+    WITHOUT realising them in the search tree (realisation would add decision nodes below a
+    leaf that is being closed and make the engine revisit the same program path)."""
+    out = {}
+    solver = space.solver
+    if str(solver.check()) != "sat":
+        raise UnexploredPath("no model for finished path")
+    m = solver.model()
+    for k, v in vals.items():
+        var = getattr(v, "var", None)
+        if var is None or not isinstance(var, z3.ExprRef):
+            out[k] = v
+            continue
+        e = m.eval(var, model_completion=True)
+        if z3.is_int_value(e):
+            out[k] = e.as_long()
+        elif z3.is_true(e):
+            out[k] = True
+        elif z3.is_false(e):
+            out[k] = False
+        else:
+            raise UnexploredPath("unexpected model value %r" % e)
+    return out
 
 
 def _alarm(signum, frame):
@@ -208,8 +247,7 @@ def explore(harness, params=None, budget_s=60.0, per_path=20.0, seed=0,
                                 for lab in sym.covers:
                                     covers[lab] = covers.get(lab, 0) + 1
                                 if len(samples) < n_samples:
-                                    with ResumedTracing():
-                                        samples.append({k: deep_realize(v) for k, v in sym.vals.items()})
+                                    samples.append(_model_vals(space, sym.vals))
                                 ca = CallAnalysis(VerificationStatus.CONFIRMED)
                             except Reject:
                                 rejected += 1
@@ -222,10 +260,11 @@ def explore(harness, params=None, budget_s=60.0, per_path=20.0, seed=0,
                                 else:
                                     key = "exception:" + type(e).__name__
                                     detail = "".join(traceback.format_exception_only(type(e), e)).strip()[:300]
-                                with ResumedTracing():
-                                    vals = {k: deep_realize(v) for k, v in sym.vals.items()}
-                                    key = deep_realize(key)
-                                    detail = deep_realize(detail)
+                                vals = _model_vals(space, sym.vals)
+                                if not isinstance(key, str) or not isinstance(detail, str):
+                                    with ResumedTracing():
+                                        key = deep_realize(key)
+                                        detail = str(deep_realize(detail))
                                 failed += 1
                                 rec = fails.get(key)
                                 if rec is None:
@@ -289,6 +328,8 @@ def replay(harness, vals, params=None, hang_s=60):
             return ("pass", None, "")
         except Reject:
             return ("reject", None, "")
+        except Missing as e:
+            return ("pass", None, "replay ran past the recorded inputs (needed %s)" % e)
         except Fail as e:
             return ("fail", e.key, str(e.detail))
         except Hang:
